@@ -62,12 +62,14 @@ def main_in_scratch():
     os.environ['TMPDIR'] = base
     tempfile.tempdir = base
     me = os.getpid()
-    try:
-        return main()
-    finally:
-        if os.getpid() == me:         # (a forked child that returns here must not remove the parent's files)
-            tempfile.tempdir = None
+
+    def cleanup():
+        if os.getpid() == me:         # (a forked child that gets here must not remove the parent's files)
             shutil.rmtree(base, ignore_errors=True)
+    # registered first = run last: after the exit handlers of the code under test (which remove files in here)
+    import atexit
+    atexit.register(cleanup)
+    return main()
 
 
 if __name__ == '__main__':
